@@ -235,6 +235,23 @@ func (g *vGen) template(k int, nNodes int) ([][][2]int, []string, string) {
 		dags[1] = [][2]int{{ly.trunk, ly.trunk + b}, {ly.by, ly.by + r.Intn(ly.X)}, {ly.leaf1 + 50, ly.leaf1 + 50 + r.Intn(40)}}
 		name = "mix"
 		feats = append(feats, "mix")
+	case 7: // EQUAL page height, one side lacks > 650 transactions on pages >= 1 (one IBLT cannot decode them; page 0 is identical)
+		a := ly.L - r.Intn(20)
+		n := 700 + r.Intn(300)
+		lo := pg + 10 + r.Intn(40)
+		if lo+n > a-1 {
+			n = a - 1 - lo
+		}
+		who := r.Intn(2)
+		dags[0] = [][2]int{{ly.trunk, ly.trunk + a}}
+		dags[1] = [][2]int{{ly.trunk, ly.trunk + a}}
+		// first- and second-level leaves over the same clocks: > 650 missing refs within ONE page
+		dags[who] = append(dags[who], [2]int{ly.leaf1 + lo, ly.leaf1 + lo + n}, [2]int{ly.leaf2 + lo, ly.leaf2 + lo + n})
+		if r.Intn(2) == 0 { // and a handful the other way round, on the last page
+			dags[1-who] = append(dags[1-who], [2]int{ly.leaf1 + a - 30, ly.leaf1 + a - 30 + r.Intn(20)})
+		}
+		name = fmt.Sprintf("equalheight-%d-on-page1plus", n)
+		feats = append(feats, "equal-height-large-diff-on-page>=1")
 	case 6: // a peer that is BEHIND with a wide, shallow DAG: > 650 transactions on page 0 the other side lacks, the other several pages ahead
 		short := ly.wideAt + 1 + r.Intn(100) // still on page 0
 		w := 700 + r.Intn(ly.W-700+1)
@@ -520,7 +537,7 @@ func (g *vGen) runScenario(idx int, dir string) vVerdict {
 	if (os.Getenv("VERIF_TIER") == "thorough" && idx%5 == 4) || idx%10 == 9 {
 		nNodes = 3
 	}
-	k := idx % 7
+	k := idx % 8
 	dags, feats, name := g.template(k, nNodes)
 	g.freshNext = [3]int{0, 0, g.freshNext[2]}
 	withDid := idx%3 == 0
